@@ -93,6 +93,12 @@ type ExistsE struct{ Path Expr }
 type ReadE struct{ Path Expr }
 type InputE struct{ Prompt Expr }
 
+// RawExpr is rendered verbatim; the reference takes Val as its value (for expressions outside the AST, e.g. std calls).
+type RawExpr struct {
+	Text string
+	Val  Expr
+}
+
 // AppCallE is a chain of program calls: @"p1"(args) | @"p2"(args)
 type AppCallE struct{ Calls []AppOne }
 type AppOne struct {
@@ -311,6 +317,8 @@ func (r *renderer) expr(e Expr) {
 		r.w("read(")
 		r.expr(x.Path)
 		r.w(")")
+	case RawExpr:
+		r.w(x.Text)
 	case AppCallE:
 		for i, cl := range x.Calls {
 			if i > 0 {
@@ -606,9 +614,10 @@ type Interp struct {
 	Out     []gosym.Str // one entry per printed line (with trailing newline)
 	Exit    int64
 	Exited  bool
-	globals scope
+	cur     *Module
+	mods    map[string]*Module
+	files   map[string]*Program
 	frames  [][]scope // call stack; each frame is a stack of block scopes
-	funcs   map[string]*FuncDef
 	ctl     refCtl
 	rets    []RV
 	steps   int
@@ -621,7 +630,9 @@ type Interp struct {
 }
 
 func NewInterp(c *gosym.Ctx) *Interp {
-	return &Interp{C: c, globals: scope{}, funcs: map[string]*FuncDef{}, Files: map[string]gosym.Str{}, MaxIter: 24}
+	in := &Interp{C: c, Files: map[string]gosym.Str{}, MaxIter: 24, mods: map[string]*Module{}}
+	in.cur = &Module{Name: "main", Globals: scope{}, Funcs: map[string]*FuncDef{}, Imports: map[string]*Module{}}
+	return in
 }
 
 func exclude(why string) { panic(Excluded{why}) }
@@ -642,7 +653,7 @@ func (in *Interp) find(name string) *RV {
 			}
 		}
 	}
-	if p, ok := in.globals[name]; ok {
+	if p, ok := in.cur.Globals[name]; ok {
 		return p
 	}
 	panic(RefUnsupported{"reference evaluator: undefined variable " + name})
@@ -655,7 +666,7 @@ func (in *Interp) define(name string, v RV) {
 		fr[len(fr)-1][name] = &vv
 		return
 	}
-	in.globals[name] = &vv
+	in.cur.Globals[name] = &vv
 }
 
 func zeroOf(t Type, B *sym.Builder) RV {
@@ -671,8 +682,52 @@ func zeroOf(t Type, B *sym.Builder) RV {
 	return RStr{}
 }
 
-// Run evaluates a program.
+// Module is one source file with its own globals and functions.
+type Module struct {
+	Name    string
+	Globals scope
+	Funcs   map[string]*FuncDef
+	Imports map[string]*Module
+}
+
+// SetFiles registers the imported files (path as written in the import -> program).
+func (in *Interp) SetFiles(files map[string]*Program) { in.files = files }
+
+func (in *Interp) load(path string) *Module {
+	if m, ok := in.mods[path]; ok {
+		return m
+	}
+	p := in.files[path]
+	if p == nil {
+		if !strings.HasSuffix(path, ".tsh") {
+			// standard library file: its functions are only used through raw statements, which the reference skips
+			m := &Module{Name: path, Globals: scope{}, Funcs: map[string]*FuncDef{}, Imports: map[string]*Module{}}
+			in.mods[path] = m
+			return m
+		}
+		panic(RefUnsupported{"reference: import of unknown file " + path})
+	}
+	m := &Module{Name: path, Globals: scope{}, Funcs: map[string]*FuncDef{}, Imports: map[string]*Module{}}
+	in.mods[path] = m
+	for _, im := range p.Imports {
+		m.Imports[im.Alias] = in.load(im.Path)
+	}
+	// the top-level code of a file runs once, when the file is first imported
+	saved := in.cur
+	in.cur = m
+	in.block(p.Body, false)
+	in.cur = saved
+	return m
+}
+
+// Run evaluates a program (imports first, in order).
 func (in *Interp) Run(p *Program) {
+	for _, im := range p.Imports {
+		if in.ctl != rcNone {
+			return
+		}
+		in.cur.Imports[im.Alias] = in.load(im.Path)
+	}
 	in.block(p.Body, false)
 }
 
@@ -943,7 +998,7 @@ func (in *Interp) stmt(s Stmt) {
 		in.eval(x.X)
 	case FuncDef:
 		f := x
-		in.funcs[x.Name] = &f
+		in.cur.Funcs[x.Name] = &f
 	case WriteS:
 		path := in.strOf(x.Path)
 		data := in.strOf(x.Data)
@@ -1196,6 +1251,8 @@ func (in *Interp) eval(e Expr) RV {
 			}
 		}
 		return RStr{gosym.Concat(gosym.Str{Segs: append([]Unit(nil), u...)})}
+	case RawExpr:
+		return in.eval(x.Val)
 	case AppCallE:
 		out, st := in.runApps(x)
 		// captured: standard output without its trailing newline, empty stderr, exit status of the last program
@@ -1217,7 +1274,14 @@ func (in *Interp) eval(e Expr) RV {
 		in.Stdin = in.Stdin[1:]
 		return RStr{l}
 	case CallE:
-		f := in.funcs[x.Fn]
+		callee := in.cur
+		if x.Alias != "" {
+			callee = in.cur.Imports[x.Alias]
+			if callee == nil {
+				panic(RefUnsupported{"reference: unknown import alias " + x.Alias})
+			}
+		}
+		f := callee.Funcs[x.Fn]
 		if f == nil {
 			panic(RefUnsupported{"reference: call of unknown function " + x.Fn})
 		}
@@ -1229,7 +1293,9 @@ func (in *Interp) eval(e Expr) RV {
 			panic(RefUnsupported{"reference: call depth"})
 		}
 		saved := in.topPseudo
+		savedMod := in.cur
 		in.topPseudo = false
+		in.cur = callee
 		in.frames = append(in.frames, []scope{{}})
 		for i, p := range f.Params {
 			in.define(p.Name, args[i])
@@ -1237,6 +1303,7 @@ func (in *Interp) eval(e Expr) RV {
 		in.block(f.Body, false)
 		in.frames = in.frames[:len(in.frames)-1]
 		in.topPseudo = saved
+		in.cur = savedMod
 		var rets []RV
 		if in.ctl == rcReturn {
 			in.ctl = rcNone
